@@ -10,6 +10,7 @@ import (
 	"sort"
 	"strings"
 	"sync/atomic"
+	"syscall"
 	"time"
 
 	"gonum.org/v1/gonum/graph/formats/rdf"
@@ -523,21 +524,33 @@ func homomorphism(a, b dataset, accept func(m map[string]string) bool) bool {
 
 // leanGuard runs rdf.Lean in its own goroutine. rdf.Lean does not terminate
 // on some small inputs (reported); a goroutine cannot be killed, so a call
-// that has not returned after leanWait is abandoned (it keeps spinning until
-// the process exits, which is why this section runs last) and at most
-// maxLeanLeaks calls are abandoned per run; afterwards Lean is not called
-// any more.
+// that has consumed leanCPU of processor time without returning is abandoned
+// (it keeps spinning until the process exits, which is why this section runs
+// last) and at most maxLeanLeaks calls are abandoned per run; afterwards Lean
+// is not called any more.
+//
+// The verdict is taken on the CPU clock of the process, not on wall time:
+// the section is serial, so while a call is outstanding the only busy
+// goroutines are that call and the k calls abandoned before it, which share
+// the processor time of the process evenly; the call is abandoned when the
+// process has consumed (k+1)*leanCPU since the call started. On a loaded
+// machine the process clock advances slowly and the guard waits longer, so
+// a slow but terminating call (they take < 10 ms of CPU) is not misreported.
 const (
-	leanWait     = 8 * time.Second // calls that return take < 10 ms
+	leanCPU      = 8 * time.Second
 	maxLeanLeaks = 3
 )
 
-var (
-	leanLeaks atomic.Int32
-	// leanSlots bounds the number of Lean calls in flight, so that the cap
-	// on abandoned calls is exceeded by at most this number.
-	leanSlots = make(chan struct{}, 3)
-)
+var leanLeaks atomic.Int32
+
+// processCPU returns the user+system processor time consumed by the process.
+func processCPU() time.Duration {
+	var ru syscall.Rusage
+	if err := syscall.Getrusage(syscall.RUSAGE_SELF, &ru); err != nil {
+		return 0
+	}
+	return time.Duration(ru.Utime.Nano() + ru.Stime.Nano())
+}
 
 type leanResult struct {
 	out []*rdf.Statement
@@ -547,25 +560,31 @@ type leanResult struct {
 
 // guardedLean returns ok=false when the call was skipped or abandoned.
 func guardedLean(c *vrt.Ctx, st []*rdf.Statement, rp replay) (res leanResult, ok bool) {
-	leanSlots <- struct{}{}
-	defer func() { <-leanSlots }()
 	if leanLeaks.Load() >= maxLeanLeaks {
 		c.Count("lean.calls_skipped_after_non_termination", 1)
 		return res, false
 	}
 	ch := make(chan leanResult, 1)
+	start := processCPU()
 	go func() {
 		var r leanResult
 		r.p = vrt.Try(func() { r.out, r.err = rdf.Lean(st) })
 		ch <- r
 	}()
-	select {
-	case res = <-ch:
-		return res, true
-	case <-time.After(leanWait):
-		leanLeaks.Add(1)
-		c.Violationf("rdf.Lean|triples|does-not-terminate", rp, "Lean has not returned after %v on %d statements (calls that return take milliseconds)\n%s", leanWait, len(st), rp.Input)
-		return res, false
+	tick := time.NewTicker(100 * time.Millisecond)
+	defer tick.Stop()
+	for {
+		select {
+		case res = <-ch:
+			return res, true
+		case <-tick.C:
+			budget := leanCPU * time.Duration(leanLeaks.Load()+1)
+			if used := processCPU() - start; used >= budget {
+				leanLeaks.Add(1)
+				c.Violationf("rdf.Lean|triples|does-not-terminate", rp, "Lean has not returned after the process consumed %v of CPU with %d busy goroutines (calls that return take milliseconds) on %d statements\n%s", used.Round(time.Second), leanLeaks.Load(), len(st), rp.Input)
+				return res, false
+			}
+		}
 	}
 }
 
@@ -593,18 +612,19 @@ func runLean(c *vrt.Ctx) {
 		leanCase(c, t, c.RNG("c14n/lean-fixed"), d, d.family, replay{Case: d.family, Input: d.text()}, 1)
 		total.merge(t)
 	}
-	vrt.Parallel(len(jobs), func(ji int) {
+	// serial on purpose: see leanGuard
+	for ji := range jobs {
 		d := jobs[ji].d
 		if d.labels != "triples" {
-			return
+			continue
 		}
 		t := newTally()
-		defer total.merge(t)
 		r := c.RNG("c14n/lean", ji)
 		cls := fmt.Sprintf("%s|%s|blanks=%d", d.family, d.labels, len(d.blanks()))
 		c.LastCase(fmt.Sprintf("lean dataset #%d %s", ji, cls))
 		leanCase(c, t, r, d, cls, replay{Case: fmt.Sprintf("dataset #%d %s", ji, cls), Input: d.text()}, 4)
-	})
+		total.merge(t)
+	}
 	c.Note("lean.calls_abandoned", leanLeaks.Load())
 	total.flush(c)
 }
